@@ -1,6 +1,8 @@
 import Driver.Reader
 import Driver.Flow
 import Driver.InfoModel
+import Driver.V5
+import Driver.Json
 open Driver Vflow
 
 /-- driver state: one model template cache per protocol, reset by `new` -/
@@ -21,6 +23,8 @@ def handle (st : DState) (line : String) : DState × String :=
   | ["nf9", a, d] =>
     let (res, c') := V9.decode st.nf9 (unhexArg a) (unhexArg d)
     ({ st with nf9 := c' }, showResult res)
+  | ["nf5", a, d] => (st, nf5Line (unhexArg a) (unhexArg d))
+  | ["json", p, a, h, r] => (st, jsonLine p a h r)
   | ["elem", p, i] => (st, elemLine p i)
   | _ => (st, "bad-op")
 
